@@ -32,8 +32,9 @@ theorem py_dl_domain_no_own_fault {ω : Type} (env : RL.Env ω) (hD : env.g.Doma
     (hn : len = "short" ∧ n = 5 ∨ len = "long" ∧ n = 15 ∨ len ≠ "short" ∧ len ≠ "long" ∧ len.toNat? = some n) (w : ω) :
     Py.MS.exec (py_read_pil_line env [.tok "dl-domain", .tok name, .tok len]) w =
       Py.MS.exec (do let h ← env.Domain (.tok name) (some n); pure (RL.Val.obj h)) w := by
+  obtain ⟨k, hk⟩ := Option.isSome_iff_exists.1 hD
   rcases hn with ⟨rfl, rfl⟩ | ⟨rfl, rfl⟩ | ⟨h1, h2, h3⟩ <;>
-    simp [py_read_pil_line, Py.idx, Py.treeEqStr, Py.treeInt, hD, *] <;> rfl
+    simp [py_read_pil_line, Py.idx, Py.treeEqStr, Py.treeInt, hk, *] <;> rfl
 
 end Dsd.PyReadLine
 
